@@ -14,7 +14,7 @@ if os.path.isdir(f"{dst}/demo"): shutil.rmtree(f"{dst}/demo")
 shutil.copytree(f"{src}/demo{k}", f"{dst}/demo")
 shutil.copy(f"{src}/m{k}.md", f"{dst}/notes.md")
 ver = ""
-vl = f"/tmp/mx-verify-{prop}.log" if suf else f"/tmp/mw-verify-{prop}.log"
+vl = f"{pre}verify-{prop}.log"
 if os.path.exists(vl):
     for l in open(vl):
         if f" m{k}:" in l: ver = l.strip()
